@@ -72,6 +72,8 @@ def main():
     ap.add_argument("names", nargs="*")
     ap.add_argument("--tier", default="both", choices=["quick", "thorough", "both"])
     ap.add_argument("--also", default="")
+    ap.add_argument("--fallback-all", action="store_true",
+                    help="when the property's own check misses the change, run the quick tier of every other registered check")
     ap.add_argument("--no-suite", action="store_true", help="skip re-running the project's test-suite on the patched tree")
     ap.add_argument("--scratch", action="store_true", help="apply the patches to a scratch worktree of /repo's HEAD instead of /repo itself")
     a = ap.parse_args()
@@ -105,13 +107,24 @@ def run(a):
         res = {"name": name, "property": meta["property"], "repo_head": sh(["git", "-C", REPO, "rev-parse", "HEAD"]).stdout.strip(),
                "checks": []}
         saved = {}
-        for pid in pids:
+        for pid in (pids if not a.fallback_all else [os.path.basename(x)[:-5] for x in glob.glob(os.path.join(VERIF, "evidence", "C*.json"))]):
             p = os.path.join(VERIF, "evidence", pid + ".json")
             if os.path.exists(p):
                 saved[p] = open(p, "rb").read()
         res["demo_clean_exit"] = run_demo(d, REPO)
         ap_ = sh(["git", "-C", REPO, "apply", os.path.join(d, "patch.diff")])
+        three_way = False
         if ap_.returncode != 0:
+            # later fix: commits may have touched neighbouring lines: try a three-way merge of the patch
+            ap3 = sh(["git", "-C", REPO, "apply", "--3way", os.path.join(d, "patch.diff")])
+            unmerged = sh(["git", "-C", REPO, "diff", "--name-only", "--diff-filter=U"]).stdout.strip()
+            if ap3.returncode == 0 and not unmerged:
+                three_way = True
+                sh(["git", "-C", REPO, "reset", "-q"])      # keep the change in the working tree only
+                res["applied_with"] = "git apply --3way (context moved by later fix: commits)"
+            else:
+                sh(["git", "-C", REPO, "reset", "-q", "--hard"])
+        if ap_.returncode != 0 and not three_way:
             res["error"] = "patch does not apply: " + ap_.stderr[-300:]
         else:
             try:
@@ -132,8 +145,21 @@ def run(a):
                                 if os.path.exists(src):
                                     shutil.copy(src, os.path.join(d, "replay-%s-%s.json" % (pid, tier)))
                             break
+                if a.fallback_all and not any(c["violations"] for c in res["checks"]):
+                    man = json.load(open(os.path.join(VERIF, "MANIFEST.json")))
+                    for other in [c["property_id"] for c in man["checks"] if c["property_id"] not in pids]:
+                        c = run_check(other, "quick")
+                        c["property"] = other
+                        if c["violations"]:
+                            res["checks"].append(c)
+                            rp = c["violations"][0].split("replay=")[1].split()[0]
+                            if os.path.exists(os.path.join(VERIF, rp)):
+                                shutil.copy(os.path.join(VERIF, rp), os.path.join(d, "replay-%s-quick.json" % other))
             finally:
-                sh(["git", "-C", REPO, "apply", "-R", os.path.join(d, "patch.diff")])
+                if three_way:
+                    sh(["git", "-C", REPO, "checkout", "--", "."])
+                else:
+                    sh(["git", "-C", REPO, "apply", "-R", os.path.join(d, "patch.diff")])
                 if not repo_clean():
                     sh(["git", "-C", REPO, "checkout", "--", "."])
                     sh(["git", "-C", REPO, "clean", "-fdq", "src", "tests"])
